@@ -29,7 +29,7 @@ from resonaate.physics.time.stardate import ScenarioTime  # noqa: E402
 
 ALL_INVS = ("ThrustExactlyInterval", "DeliveredDv", "ExactAtBoundaries", "Semigroup", "BulkConsistent",
             "StepwiseEqualsRun", "QueueClean", "ImpulseNeverLost")
-ACTIONS = ("PoseLaw", "PoseGrid", "PoseBurn", "PoseImp", "ApplyImpulse", "AppendEvent", "Deliver", "DropEvents", "Prune", "PrepEvents", "PrepEventsBulk",
+ACTIONS = ("PoseLaw", "PoseGrid", "PoseBurn", "PoseImp", "ApplyImpulse", "AppendEvent", "Deliver", "DropEvents", "NeighbourCall", "PrepEventsNb", "Prune", "PrepEvents", "PrepEventsBulk",
            "Integrate", "StartThrust", "EndThrust", "Finish")
 
 
@@ -37,7 +37,7 @@ ACTIONS = ("PoseLaw", "PoseGrid", "PoseBurn", "PoseImp", "ApplyImpulse", "Append
 def cfg_text(invs=ALL_INVS, emit: str = "", props=("OutputsImmutable",), **kw) -> str:
     d = dict(Mode='"steps"', Horizon=12, StepLens="{1, 2, 3, 4, 6}", MaxSteps=4, Ks="{1}", MaxInterior=0,
              MaxCalls=0, Laws="LawsQuick", Kinds="KindsBurn", BurnChoice='"closed"', WithNoBurn="TRUE",
-             FirstStart=1, OnlyFirstStart="FALSE", EndNeedsLanding="FALSE", EndMasksStart="FALSE", CallerMayDrop="FALSE", StaleThrust="FALSE", ImpChoice='"none"', ImpDvs="{0, 1}", FirstRootOnly="FALSE", Layouts="LayoutsC", EmitTag=f'"{emit}"')
+             FirstStart=1, OnlyFirstStart="FALSE", EndNeedsLanding="FALSE", EndMasksStart="FALSE", CallerMayDrop="FALSE", CallerMayNeighbour="FALSE", StaleThrust="FALSE", ImpChoice='"none"', ImpDvs="{0, 1}", FirstRootOnly="FALSE", Layouts="LayoutsC", EmitTag=f'"{emit}"')
     d.update(kw)
     lines = ["SPECIFICATION Spec", "CONSTANTS"]
     for k, v in d.items():
